@@ -14,6 +14,8 @@ import (
 	"fmt"
 	"os"
 	"runtime"
+	"runtime/debug"
+	"strconv"
 	"strings"
 	"sync"
 
@@ -213,7 +215,13 @@ func parallelCases(run *hx.Run, nOps int, mk func(idx int, r *hx.Rng) []caseOut)
 			go func(k int) {
 				defer wg.Done()
 				defer func() { <-sem }()
-				outs[k] = mk(idx+k, hx.NewRng(run.Seed*1000003+uint64(idx+k)*7919+11))
+				outs[k] = guarded(func() []caseOut {
+					o := mk(idx+k, hx.NewRng(run.Seed*1000003+uint64(idx+k)*7919+11))
+					if selfTestPanic && idx+k == 3 { // VERIF_QBFT_SELFTEST_PANIC=1: exercises the harness-error path
+						panic("self-test")
+					}
+					return o
+				})
 			}(k)
 		}
 		wg.Wait()
@@ -224,6 +232,65 @@ func parallelCases(run *hx.Run, nOps int, mk func(idx int, r *hx.Rng) []caseOut)
 			}
 		}
 	}
+}
+
+// ---------------------------------------------------------------- harness errors are findings about the HARNESS, not process deaths
+
+var selfTestPanic = os.Getenv("VERIF_QBFT_SELFTEST_PANIC") != ""
+
+var caseReg sync.Map // goroutine id -> *[]*Case : the cases created by the case body running on that goroutine
+
+func goid() uint64 {
+	var buf [64]byte
+	n := runtime.Stack(buf[:], false)
+	f := strings.Fields(string(buf[:n]))
+	if len(f) < 2 {
+		return 0
+	}
+	id, _ := strconv.ParseUint(f[1], 10, 64)
+	return id
+}
+
+func regCase(c *Case) {
+	v, _ := caseReg.LoadOrStore(goid(), &[]*Case{})
+	p := v.(*[]*Case)
+	*p = append(*p, c)
+}
+
+// guarded runs one case body; a panic inside the harness (not inside the code under test: those are recovered per op and are
+// observations) becomes a `HARNESS/panic` violation carrying the op lines of the cases the body had created, and the run goes on.
+func guarded(body func() []caseOut) (outs []caseOut) {
+	id := goid()
+	caseReg.Delete(id)
+	defer func() {
+		if rec := recover(); rec != nil {
+			stack := string(debug.Stack())
+			where := ""
+			ls := strings.Split(stack, "\n")
+			for i := 0; i+1 < len(ls); i++ { // frames: function line, then "\tfile:line +off"
+				fn := ls[i]
+				if strings.HasPrefix(ls[i+1], "\t") && strings.Contains(ls[i+1], "zz_verif/") && !strings.Contains(fn, "guarded") && !strings.Contains(fn, "debug.Stack") {
+					where = strings.TrimSpace(fn) + " " + strings.TrimSpace(ls[i+1])
+					break
+				}
+			}
+			var all []string
+			outs = nil
+			if v, ok := caseReg.Load(id); ok {
+				for _, c := range *(v.(*[]*Case)) {
+					c.viols, c.stepViols = nil, nil
+					outs = append(outs, finishCase(c, []string{"case/harness-panic"}))
+					all = append(all, c.lines...)
+				}
+			}
+			if len(outs) == 0 {
+				outs = []caseOut{{tags: []string{"case/harness-panic"}}}
+			}
+			outs[0].viols = append(outs[0].viols, violation{sig: "HARNESS/panic", detail: fmt.Sprintf("harness error (not a property violation): panic `%v` at %s; the op lines are the ones applied before it", rec, where), replay: all})
+		}
+		caseReg.Delete(id)
+	}()
+	return body()
 }
 
 func absorb(run *hx.Run, o caseOut) {
